@@ -2,6 +2,7 @@
 
 from __future__ import annotations
 
+import re
 from sys import maxsize
 from typing import TYPE_CHECKING
 
@@ -106,6 +107,9 @@ def is_printable_as_block_string(value: str) -> bool:
     return True
 
 
+_re_newline = re.compile(r"\r\n|[\n\r]")
+
+
 def print_block_string(value: str, minimize: bool = False) -> str:
     """Print a block string in the indented block form.
 
@@ -120,8 +124,9 @@ def print_block_string(value: str, minimize: bool = False) -> str:
 
     escaped_value = value.replace('"""', '\\"""')
 
-    # Expand a block string's raw value into independent lines.
-    lines = escaped_value.splitlines() or [""]
+    # Expand a block string's raw value into independent lines
+    # (split only on the line terminators of the lexer, unlike str.splitlines()).
+    lines = _re_newline.split(escaped_value)
     num_lines = len(lines)
     is_single_line = num_lines == 1
 
